@@ -62,6 +62,9 @@ def make_exc(kind):
         return TextXSemanticError("injected")
     if kind == "txloc":
         return TextXError("injected", line=77, col=88, nchar=99, filename="sentinel.file")
+    if kind == "txpartial":
+        # the typical TextXSemanticError(msg, line=..., col=...): file name and nchar are still to be filled
+        return TextXSemanticError("injected", line=77, col=88)
     if kind in ("val", "valwrap"):
         return ValueError("injected")
     if kind == "key":
@@ -208,6 +211,7 @@ class Rec:
         self.last_obj = None
         self.fault_site_info = None
         self.pos_by_id = {}  # id(obj) -> (file, start, end) taken at parse time
+        self.repl_kinds = ["obj"]
 
     # -- object identity without strong references
     def ref(self, o):
@@ -303,6 +307,7 @@ class Env:
         self.rec = Rec(ctx, tag, strong)
         self.rec.env = self
         self.rec.replace_rules = set(cfg["replace"])
+        self.rec.repl_kinds = cfg.get("repl_kinds") or ["obj"]
         self.sched = Scheduler(ctx, world, len(world.refs) + 2)
         self.classes = [make_class(n, v, self.rec) for n, v in cfg["classes"]]
         kw = dict(textx_tools_support=cfg["tools"], memoization=cfg["memo"])
@@ -346,7 +351,7 @@ class Env:
             if rec.depth == 0:
                 rec.matchcalls.append((rule, str(value)))
                 rec.ev("matchproc", rule, str(value))
-                rec.cross("matchproc" if rule != "ID" else "matchproc-id")
+                rec.cross("matchproc")
             if rule == "INT":
                 return int(value)
             return value
@@ -366,7 +371,10 @@ class Env:
             rec.objprocs.append((i, rule, k, rec.ref(obj), obj if rec.strong else None))
             rec.cross("objproc")
             if rule in rec.replace_rules and rule != "Model":
-                r = Repl(f"{rule}@{k[0]}:{k[1]}")
+                # replacement values include falsy ones (0, "", [], False): only None means "keep the object"
+                kind = rec.repl_kinds[((k[1] or 0) + len(rule)) % len(rec.repl_kinds)]  # a function of the object, not of history
+                r = {"obj": Repl(f"{rule}@{k[0]}:{k[1]}"), "zero": 0, "empty-str": "", "empty-list": [],
+                     "false": False}[kind]
                 rec.replaced.append((rule, id(obj), r))
                 return r
             return None
@@ -573,7 +581,7 @@ def check_c13(ctx, env, cfgcls):
         reps = by_obj.get(id(o))
         if not reps:
             continue
-        want = reps.get(rule) or reps.get("Item")
+        want = reps[rule] if rule in reps else reps["Item"]  # the own rule's value wins; falsy values count
         # find the slot
         slot_vals = []
         if rule == "Inner":
@@ -593,7 +601,7 @@ def check_c13(ctx, env, cfgcls):
 # the run
 # ---------------------------------------------------------------------------
 
-CALLBACK_SITES = ["prov", "matchproc", "matchproc-id", "objproc", "modelproc", "init", "precallback"]
+CALLBACK_SITES = ["prov", "matchproc", "objproc", "modelproc", "init", "precallback"]
 INPUT_FAULTS = ["syntax", "dangling", "never"]
 
 
@@ -625,6 +633,7 @@ def draw_cfg(t, prop, nfiles):
         "classes": classes,
         "procs": procs,
         "replace": replace,
+        "repl_kinds": [t.pick(["obj", "zero", "empty-str", "empty-list", "false"], "repl-kind") for _ in range(3)],
         "wrap": t.chance(1, 3, "wrap"),
         "modelproc": t.chance(2, 3, "modelproc"),
         "precb": t.chance(1, 2, "precb"),
@@ -741,7 +750,7 @@ def draw_fault(t, prop, counts, w, refs, cfg):
         if not sites:
             return None
         site = t.pick(sites, "fault-site")
-        exck = t.pick(["tx", "txloc", "valwrap"], "exc-kind")
+        exck = t.pick(["tx", "txloc", "valwrap", "txpartial"], "exc-kind")
         return ("callback", site, 1 + t.draw(counts[site], "fault-k"), exck)
     cb = [s for s in CALLBACK_SITES if counts.get(s)]
     options = [("callback", s) for s in cb] + [("input", k) for k in INPUT_FAULTS]
@@ -750,7 +759,7 @@ def draw_fault(t, prop, counts, w, refs, cfg):
         options.append(("nested", "swallow"))
     kind, what = t.pick(options, "fault")
     if kind == "callback":
-        exck = t.pick(["tx", "val", "txloc", "key"], "exc-kind")
+        exck = t.pick(["tx", "val", "txloc", "key", "txpartial"], "exc-kind")
         return ("callback", what, 1 + t.draw(counts[what], "fault-k"), exck)
     if kind == "nested":
         sites = [s for s in ("prov", "objproc", "init", "modelproc") if counts.get(s)]
@@ -927,23 +936,41 @@ def run_fault(ctx, prop, w, cfg, cfgcls, fault, as_string, d1, counts, refs, e1s
 
 
 def match_site(ctx, w, cfg, seq, k):
-    """(file, offset, None) of the k-th Tag/INT/QN match-processor call, from
-    the census sequence and the generator's token table."""
-    rolemap = {"int": "INT", "tag": "Tag", "ref": "QN"}
+    """(file, offset, None) of the k-th match-processor call (ID, QN, INT, Tag),
+    from the census sequence and the generator's token table.  A reference
+    token b1.d2 makes textX call ID for every part (at the part's own offset)
+    and then QN for the whole name (at the start of the reference)."""
+    import re as _re
+
+    procs = cfg["procs"]
     pending = []
     n = 0
     for e in seq:
-        if e[0] == "matchproc" and e[1] != "ID":
+        if e[0] == "matchproc":
             pending.append((e[1], e[2]))
         elif e[0] == "parsed":
             fn = next((p for p in w.files if os.path.basename(p) == e[1]), w.main)
-            toks = [(a, s, rolemap[r]) for (a, s, r) in w.files[fn].tokens
-                    if r in rolemap and rolemap[r] in cfg["procs"]]
-            if [(r, s) for (a, s, r) in toks] != pending:
+            exp = []
+            for (a, s_, role) in w.files[fn].tokens:
+                if role == "name" and "ID" in procs:
+                    exp.append(("ID", s_, a))
+                elif role == "int" and "INT" in procs:
+                    exp.append(("INT", s_, a))
+                elif role == "tag" and "Tag" in procs:
+                    exp.append(("Tag", s_, a))
+                elif role == "ref":
+                    parts = list(_re.finditer(r"\w+", s_))
+                    if "ID" in procs:
+                        for m in parts:
+                            exp.append(("ID", m.group(0), a + m.start()))
+                    if "QN" in procs:
+                        exp.append(("QN", ".".join(m.group(0) for m in parts), a))
+            if [(r, v) for (r, v, a) in exp] != pending:
                 ctx.probe("match-map-mismatch")
                 return None
             if n < k <= n + len(pending):
-                return (fn, toks[k - n - 1][0], None)
+                ctx.probe("match-fault-on:" + exp[k - n - 1][0])
+                return (fn, exp[k - n - 1][2], None)
             n += len(pending)
             pending = []
     return None
@@ -982,6 +1009,19 @@ def check_c33(ctx, w, env, fault, err, outcome, as_string, where):
         got = (err.get("line"), err.get("col"), err.get("nchar"), err.get("filename"))
         if got != (77, 88, 99, "sentinel.file"):
             ctx.violate("C33", "supplied-location-kept", cls, f"processor-supplied location became {got}")
+        return
+    if exck == "txpartial":
+        if (err.get("line"), err.get("col")) != (77, 88):
+            ctx.violate("C33", "supplied-location-kept", cls,
+                        f"processor-supplied line/col became {(err.get('line'), err.get('col'))}")
+        exp = rec.fault_site_info
+        if exp is not None:
+            fn, pos, nchar = exp
+            want_file = None if as_string else fn
+            if err.get("filename") != want_file:
+                ctx.violate("C33", "filename", cls, f"filename {err.get('filename')!r}, processed text is in {want_file!r}")
+            if site == "objproc" and err.get("nchar") != nchar:
+                ctx.violate("C33", "nchar", cls, f"nchar {err.get('nchar')!r}, object text length is {nchar}")
         return
     # expected location from the harness's own bookkeeping
     exp = rec.fault_site_info
